@@ -1569,11 +1569,39 @@ pub fn tree_liveness(seed: u64, worker: usize, slot: &Slot) {
     let mut rng = Rng::new(seed);
     let dir = fresh_dir(worker, "tlive");
     let (o, tag) = thresholds(&mut rng);
+    let mut ts = 0u64;
+    // One execution in three starts from a full tower: sixteen overlapping generations ingested
+    // with the thresholds out of the way and no compaction, then a reopen (recovery stacks one
+    // generation per level).  From there no trivial move is possible and the level-0 merge needs
+    // more than one input, so small limits bite from the first ingest on.  Drawn from a stream of
+    // its own so that the other draws of the scenario stay what they were.
+    let mut trng = Rng::new(rng::mix(&[seed, 0x746f776572]));
+    let tower = trng.chance(1, 3);
+    if tower {
+        let pre: Vec<(&'static str, String)> = vec![
+            ("--l0-mandatory-compaction-threshold-files", "64".to_string()),
+            ("--l0-write-stall-threshold-files", "64".to_string()),
+            ("--max-compaction-files", "64".to_string()),
+        ];
+        let t0 = LsmTree::open(options(&dir.join("db"), &pre)).unwrap_or_else(|e| violation("open-error", format!("{e}")));
+        for g in 0..16 {
+            let path = dir.join(format!("tower-{g}.sst"));
+            let mut b = SstBuilder::new(SstOptions::default(), &path).unwrap_or_else(|e| violation("builder-error", format!("{e}")));
+            for k in 0..6 {
+                if k == 0 || trng.chance(1, 3) {
+                    ts += 1;
+                    b.put(&key(k), ts, &value(ts, 30)).unwrap_or_else(|e| violation("builder-error", format!("{e}")));
+                }
+            }
+            drop(b.seal().unwrap_or_else(|e| violation("builder-error", format!("{e}"))));
+            t0.ingest(&path).unwrap_or_else(|e| violation("ingest-error", format!("tower prelude: {e}")));
+        }
+        drop(t0);
+    }
     let tree = Arc::new(LsmTree::open(options(&dir.join("db"), &o)).unwrap_or_else(|e| violation("open-error", format!("{e}"))));
     let stall_bytes: Option<u64> = o.iter().find(|(k, _)| *k == "--l0-write-stall-threshold-bytes").and_then(|(_, v)| v.parse().ok());
     // tables with overlapping key ranges, built before the threads start
     let n_clients = rng.range(1, 3) as usize;
-    let mut ts = 0u64;
     let mut plans: Vec<Vec<PathBuf>> = Vec::new();
     let mut total = 0;
     for c in 0..n_clients {
@@ -1619,10 +1647,33 @@ pub fn tree_liveness(seed: u64, worker: usize, slot: &Slot) {
         }));
     }
     let mut handles = Vec::new();
+    let mof: Option<usize> = o.iter().find(|(k, _)| *k == "--max-open-files").and_then(|(_, v)| v.parse().ok());
     for files in plans {
         let t = Arc::clone(&tree);
+        let slot3 = Arc::clone(slot);
         handles.push(thread::spawn(move || {
+            let note = |t: &Arc<LsmTree>| {
+                    // Structural note for finding F-C20-4: the compaction that relieves level 0 takes
+                    // all of level 0 plus what it overlaps in level 1; once that is as many files as
+                    // `max_open_files` allows (`may_choose_compaction` refuses inputs >= max_open_files)
+                    // the selector can never choose it, however many tables follow.
+                    if let Some(mof) = mof {
+                        let lv = t.verif_levels();
+                        let lo = lv[0].iter().map(|f| f.1.clone()).min();
+                        let hi = lv[0].iter().map(|f| f.2.clone()).max();
+                        if let (Some(lo), Some(hi)) = (lo, hi) {
+                            let need = lv[0].len() + lv[1].iter().filter(|f| f.1 <= hi && lo <= f.2).count();
+                            if need >= mof {
+                                let mut r = slot3.lock().unwrap();
+                                if !r.tag.contains("max-open-files") {
+                                    r.tag = format!("{}:level-0-compaction-needs-at-least-max-open-files", r.tag);
+                                }
+                            }
+                        }
+                    }
+            };
             for f in files {
+                note(&t);
                 if let Err(e) = t.ingest(&f) {
                     let e = format!("{e}");
                     if e.contains("too-many-open-files") {
@@ -1631,6 +1682,7 @@ pub fn tree_liveness(seed: u64, worker: usize, slot: &Slot) {
                     }
                     violation("ingest-error", e);
                 }
+                note(&t);
             }
         }));
     }
@@ -1655,6 +1707,9 @@ pub fn tree_liveness(seed: u64, worker: usize, slot: &Slot) {
     r.nontrivial = work > 0;
     r.steps = work;
     *r.probes.entry(format!("liveness_tree_{tag}")).or_insert(0) += 1;
+    if tower {
+        *r.probes.entry("liveness_tree_started_from_a_full_tower".into()).or_insert(0) += 1;
+    }
     *r.probes.entry("liveness_background_work_units".into()).or_insert(0) += work;
     r.sample = Some(serde_json::json!({"class": tag, "options": o.iter().map(|(k, v)| format!("{k}={v}")).collect::<Vec<_>>(), "ingested_tables": total, "compaction_threads": compactors}));
     drop(r);
